@@ -220,6 +220,15 @@ let run (toks : string list) : string =
                 | Hap.RChars (st, es) -> Printf.sprintf "%d:%s" (int_of_n st) (entries_str es)
                 | Hap.RRefused470 -> "470" | r -> resp_tlv r))
           end
+        | ["PSPLIT"; c; o; id] ->
+          (* the subscription request of c and a plaintext request of o, in either order: independent connections *)
+          if not (alive c) || not (alive o) then emit "PSPLIT=noconn" else begin
+            let ro = req o Hap.EAccessories in
+            let rc = req c (Hap.ECharsPut [((cid_of id, None), Some (Hap.EvBool true))]) in
+            emit (Printf.sprintf "PSPLIT=%s/%s"
+                    (match rc with Hap.RNoContent -> "204" | Hap.RChars (st, _) -> string_of_int (int_of_n st) | Hap.RRefused470 -> "470" | _ -> "other")
+                    (match ro with Hap.RRefused470 -> "470,canary=0" | Hap.RAccessories _ -> "200,canary=1" | _ -> "other"))
+          end
         | ["STALL"; c; _; _; _] -> emit (if alive c then "STALL=ok" else "STALL=noconn")
         | ["STORM"; c; _n] ->
           (* n local changes while the subscribed connection keeps sending requests: every interleaving delivers each change
